@@ -336,6 +336,15 @@ pub fn shard_run(tier: &str, seed: u64, replay_case: Option<usize>, shard: Shard
             cov.samples.push(json!({"history": descr, "vfs_events": events.len(), "crash_points": n_points_total}));
         }
     }
+    // ---- crash while a data directory written by the pinned release is opened for the first time
+    // by the code under test (start-up migrations run here)
+    if replay_case.is_none() {
+        if let Some(f) = upgrade_open_crashes(seed, thorough, shard, &mut cov, &mut out.errors) {
+            out.found.push(f);
+            out.cov = cov;
+            return out;
+        }
+    }
     // ---- end-to-end cross-check: the real executable under a write workload, killed with kill -9
     // at random instants; after restart every acknowledged request must be present
     if replay_case.is_none() {
@@ -346,6 +355,156 @@ pub fn shard_run(tier: &str, seed: u64, replay_case: Option<usize>, shard: Shard
     }
     out.cov = cov;
     out
+}
+
+fn proto_only(rows: &[String]) -> Vec<String> {
+    normalized(rows).into_iter().filter(|r| r.starts_with("proto-")).collect()
+}
+
+/// Every file-system operation issued while the current code opens (and first serves from) a
+/// directory written by the pinned code is a crash point; every image must still hold exactly the
+/// content the pinned code had stored. Then the real executable is started on such a directory
+/// (with a 50 MB snapshot, so that any start-up copying takes time) and killed after a few
+/// milliseconds, several times; the content must survive that too.
+fn upgrade_open_crashes(seed: u64, thorough: bool, shard: Shard, cov: &mut Cov, errors: &mut Vec<String>) -> Option<Found> {
+    use crate::checks_c19::{verify_dir, write_pinned};
+    let n = if thorough { 24 } else { 6 };
+    for i in 0..n {
+        if !shard.mine(i + 2) {
+            continue;
+        }
+        let src = ScratchDir::new("c04pin");
+        let exp = match write_pinned(src.path(), seed.wrapping_add(0xC04_0000 + i as u64), i % 4 == 0) {
+            Ok(e) => e,
+            Err(e) => {
+                errors.push(format!("pinned writer: {e:#}"));
+                continue;
+            }
+        };
+        let clients: Vec<Uuid> = exp.clients.iter().map(|c| c.id).collect();
+        let ids: Vec<Uuid> = exp.clients.iter().flat_map(|c| c.versions.iter().flat_map(|v| [v.vid, v.parent])).collect();
+        // the logical content as the pinned writer left it (read from a copy)
+        let s0 = {
+            let c = ScratchDir::new("c04pin0");
+            let _ = crate::scratch::copy_dir(src.path(), c.path());
+            match SqliteStorage::new(c.path()) {
+                Ok(st) => proto_only(&proto_rows(&st, &clients, &ids)),
+                Err(e) => {
+                    errors.push(format!("cannot open pinned directory: {e:#}"));
+                    continue;
+                }
+            }
+        };
+        let work = ScratchDir::new("c04pinw");
+        let _ = crate::scratch::copy_dir(src.path(), work.path());
+        let mut shadow = Shadow::from_dir(work.path());
+        vfs::start_recording();
+        {
+            // first open by the code under test, then one read and one write through the server
+            if let Ok(mut subj) = Subject::open_dir(Kind::SQL_LIB, Config::default(), ScratchDir(work.path().to_path_buf())) {
+                if let Some(c) = clients.first() {
+                    let _ = subj.exec(*c, &Req::GetChild { parent: Uuid::nil() });
+                }
+                // keep the directory: the ScratchDir handed to the subject must not delete it
+                if let Some(d) = subj.dir.take() {
+                    std::mem::forget(d);
+                }
+            }
+        }
+        let events = vfs::stop_recording();
+        cov.hit("upgrade-open:recorded".into());
+        let mut seen: HashSet<u64> = HashSet::new();
+        let mut rng = Rng::new(seed).fork(0xC04_1000 + i as u64);
+        for (ei, ev) in events.iter().enumerate() {
+            if ev.is_crash_point() {
+                cov.count("upgrade_open_crash_points", 1);
+                let mut images: Vec<(String, Image)> = vec![("process-crash".to_string(), shadow.process_image())];
+                images.extend(shadow.power_images(&mut rng, if thorough { 8 } else { 2 }, false).into_iter().map(|(n, im)| (format!("power-loss: {n}"), im)));
+                for (iname, im) in images {
+                    cov.evaluations += 1;
+                    if !seen.insert(im.fingerprint()) {
+                        continue;
+                    }
+                    cov.count("upgrade_open_images", 1);
+                    let bad = match recover(&im, &clients, &ids) {
+                        Err(e) => Some(e),
+                        Ok(r) => {
+                            if r.integrity != "ok" {
+                                Some(format!("fails integrity_check: {}", r.integrity))
+                            } else if proto_only(&r.rows) != s0 {
+                                let got = proto_only(&r.rows);
+                                let missing: Vec<_> = s0.iter().filter(|x| !got.contains(x)).take(2).map(|s| s.chars().take(140).collect::<String>()).collect();
+                                Some(format!("no longer holds what the pinned release had stored: missing {missing:?}"))
+                            } else {
+                                None
+                            }
+                        }
+                    };
+                    if let Some(m) = bad {
+                        return Some(Found {
+                            property: "C04".into(),
+                            signature: format!("C04:upgrade-open {}", m.split_whitespace().take(6).collect::<Vec<_>>().join(" ")),
+                            msg: format!("a data directory written by the pinned release ({} clients) is opened by the current code; crash before file-system event #{ei} ({} on {}) of that first start-up: image [{iname}] {m}", clients.len(), ev.kind(), ev.file().map(|f| f.rsplit('/').next().unwrap_or(f)).unwrap_or("")),
+                            replay: json!({"origin": "upgrade-open", "case": i, "event_index": ei}),
+                        });
+                    }
+                }
+            }
+            shadow.apply(ev);
+        }
+        let _ = std::fs::remove_dir_all(work.path());
+        // ---- the real executable killed during start-up (one worker, large directory)
+        if i == 0 {
+            use crate::net::{free_port, server_bin, Proc};
+            let Some(bin) = server_bin() else { continue };
+            let big = ScratchDir::new("c04pinbig");
+            let mut exp2 = match write_pinned(big.path(), seed.wrapping_add(0xC04_2000), false) {
+                Ok(e) => e,
+                Err(_) => continue,
+            };
+            // a 50 MB snapshot written with the pinned storage code
+            {
+                use pinned_core::Storage as _;
+                if let (Ok(st), Some(c)) = (pinned_sqlite::SqliteStorage::new(big.path()), exp2.clients.first_mut()) {
+                    if let Some(v) = c.versions.last().map(|v| v.vid) {
+                        let sp = crate::ops::PaySpec::new(50 * 1024 * 1024, 0, seed ^ 0xB16);
+                        let ts = chrono::Utc::now() - chrono::Duration::days(3);
+                        if let Ok(mut t) = st.txn(c.id) {
+                            let _ = t.set_snapshot(pinned_core::Snapshot { version_id: v, timestamp: ts, versions_since: 0 }, sp.bytes());
+                            let _ = t.commit();
+                        }
+                        c.snapshot = Some(crate::checks_c19::ExpSnap { vid: v, ts: ts.timestamp(), since: 0, pay: sp });
+                    }
+                }
+            }
+            // every cycle is a *first* start-up (fresh copy of the pinned directory), killed after a
+            // delay spread log-uniformly over 0.3..150 ms, then opened again and verified
+            let cycles = if thorough { 30 } else { 8 };
+            for cyc in 0..cycles {
+                let Some(port) = free_port() else { break };
+                let addr = format!("127.0.0.1:{port}");
+                let copy = ScratchDir::new("c04pinkill");
+                if crate::scratch::copy_dir(big.path(), copy.path()).is_err() {
+                    break;
+                }
+                let mut cmd = std::process::Command::new(&bin);
+                cmd.args(["--listen", &addr, "--data-dir", &copy.path().to_string_lossy()]).env_clear().stdin(std::process::Stdio::null()).stdout(std::process::Stdio::null()).stderr(std::process::Stdio::null());
+                let delay_us = (300.0 * (500.0f64).powf(cyc as f64 / (cycles - 1).max(1) as f64)) as u64 + rng.below(400);
+                if let Ok(child) = cmd.spawn() {
+                    let mut p = Proc { child, addrs: vec![] };
+                    std::thread::sleep(std::time::Duration::from_micros(delay_us));
+                    p.kill9();
+                    cov.count("kill9_during_startup_cycles", 1);
+                }
+                let mut c19cov = Cov::default();
+                if let Err(m) = verify_dir(copy.path(), &exp2, &mut c19cov, "pinned directory after kill -9 during start-up") {
+                    return Some(Found { property: "C04".into(), signature: "C04:kill during start-up".into(), msg: format!("the real executable was started for the first time on a data directory written by the pinned release (with a 50 MB snapshot) and killed {:.1} ms later; afterwards: {m}", delay_us as f64 / 1000.0), replay: json!({"origin": "upgrade-kill", "case": cyc}) });
+                }
+            }
+            cov.hit("upgrade-open:kill9-during-startup-survived".into());
+        }
+    }
+    None
 }
 
 fn kill_loop(seed: u64, cycles: usize, shard: Shard, cov: &mut Cov, errors: &mut Vec<String>) -> Option<Found> {
@@ -485,7 +644,7 @@ pub fn finalize(out: ShardOut, is_replay: bool) -> CheckResult {
         "counters": cov.counters,
         "situations": top.iter().take(30).map(|(k, v)| json!({"situation": k, "n": v})).collect::<Vec<_>>(),
     });
-    let required = ["regime:solo", "regime:bystander", ":http:", "power-loss|in-flight|recovered=before", "power-loss|in-flight|recovered=after", "power-loss|acknowledged|recovered=acknowledged-state", "process-crash|in-flight|recovered=after", "checkpoint-writes-while-request-in-flight", "wal-deleted-at-close"];
+    let required = ["upgrade-open:recorded", "regime:solo", "regime:bystander", ":http:", "power-loss|in-flight|recovered=before", "power-loss|in-flight|recovered=after", "power-loss|acknowledged|recovered=acknowledged-state", "process-crash|in-flight|recovered=after", "checkpoint-writes-while-request-in-flight", "wal-deleted-at-close"];
     let verdict = if !out.found.is_empty() {
         Verdict::Violated(out.found)
     } else if !out.errors.is_empty() {
